@@ -25,7 +25,7 @@ from __future__ import annotations
 import ast
 
 from ..core import AnalysisError, dotted, norm_src
-from .. import deriv, mirror, protocol, support, twobody
+from .. import deriv, mirror, protocol, support, tables, twobody
 
 EXPLANATION = ("K5 chain-rule coverage over the joint base classes; delegation idiom for g_dot_u; AST mirror comparison "
                "(identifier swap 1<->2, slice mirroring, einsum canonicalisation) of the subsystem glue; signature "
@@ -50,6 +50,7 @@ def run(ctx):
     rep.rule("C05.R3", "mirror symmetry of subsystem-1 / subsystem-2 glue", 20)
     rep.rule("C05.R4", "subsystem protocol of the glue lambdas", 15)
     rep.rule("C05.R7", "two-body block typing: a block selecting body c's coordinates / velocities holds only body c's derivative quantities (K9)", 40)
+    rep.rule("C05.R10", "per block row: sign of the body-2 block relative to the body-1 block (orientation rows; cross products in canonical order; frozen table)", 8)
     rep.rule("C05.R8", "relative polarity of body-2 vs body-1 terms agrees between the constraint and its derivatives (K9)", 25)
     rep.rule("C05.R9", "all point-protocol calls of one body's joint glue name the same material point (xi, B_r_CP)", 4)
     protocol.point_argument_agreement(ctx, "C05.R9", [("auxiliary_functions", BASE, ctx.repo.get(BASE, "auxiliary_functions"))])
@@ -84,6 +85,7 @@ def run(ctx):
                 raise AnalysisError(f"{rel}:{cname}.{name} vanished")
             twobody.check_typing(rep, "C05.R7", f"{rel}:{cname}.{name}", rel, fn)
         twobody.check_polarity(rep, "C05.R8", ci, chain)
+        twobody.check_rowgroup_polarity(rep, "C05.R10", ci, chain, tables.JOINT_ROW_POLARITY)
     # R6 K10
     for rel, cname in JOINT_BASES:
         ci = model.cls(cname, rel)
@@ -222,7 +224,18 @@ MUTANTS += [
          old="    object.a_J2 = lambda t, q, u, u_dot: object.subsystem2.a_P(\n        t, q[nq1:], u[nu1:], u_dot[nu1:], object.xi2, B2_r_P2B0\n    )",
          new="    object.a_J2 = lambda t, q, u, u_dot: object.subsystem2.a_P(\n        t, q[nq1:], u[nu1:], u_dot[nu1:], object.xi2\n    )", expect=["C05.R9", "C05.R3"]),
 ]
+JB = "cardillo/constraints/_base.py"
+MUTANTS += [
+    dict(id="c05-r9-seed", canary=True, what="[seeded by sub-agent] g_dot_q rewritten with cross3, argument order of the body-2 term wrong (sign flip that vanishes on the constraint manifold)", file=JB,
+         old="                g_dot_q[3 + i, :nq1] = (\n                    n @ Omega1_q1 - Omega21 @ ax2skew(e_b) @ A_IJ1_q1[:, a]\n                )\n                g_dot_q[3 + i, nq1:] = (\n                    -n @ Omega2_q2 + Omega21 @ ax2skew(e_a) @ A_IJ2_q2[:, b]\n                )",
+         new="                g_dot_q[3 + i, :nq1] = (\n                    n @ Omega1_q1 + cross3(e_b, Omega21) @ A_IJ1_q1[:, a]\n                )\n                g_dot_q[3 + i, nq1:] = (\n                    -n @ Omega2_q2 + cross3(e_a, Omega21) @ A_IJ2_q2[:, b]\n                )", expect="C05.R10"),
+    dict(id="c05-r9-2", what="g_q orientation rows: body-2 block negated", file=JB,
+         old="                g_q[3 + i, nq1:] = A_IJ1[:, a] @ A_IJ2_q2[:, b]", new="                g_q[3 + i, nq1:] = -A_IJ1[:, a] @ A_IJ2_q2[:, b]", expect=["C05.R10", "C05.R8"]),
+]
 NEUTRAL = [
+    dict(id="c05-n-r9", canary=True, what="g_dot_q rewritten with cross3 and the correct argument order", file=JB,
+         old="                g_dot_q[3 + i, :nq1] = (\n                    n @ Omega1_q1 - Omega21 @ ax2skew(e_b) @ A_IJ1_q1[:, a]\n                )\n                g_dot_q[3 + i, nq1:] = (\n                    -n @ Omega2_q2 + Omega21 @ ax2skew(e_a) @ A_IJ2_q2[:, b]\n                )",
+         new="                g_dot_q[3 + i, :nq1] = (\n                    n @ Omega1_q1 + cross3(e_b, Omega21) @ A_IJ1_q1[:, a]\n                )\n                g_dot_q[3 + i, nq1:] = (\n                    -n @ Omega2_q2 + cross3(Omega21, e_a) @ A_IJ2_q2[:, b]\n                )"),
     dict(id="c05-n-k9", canary=True, what="explicit -1.0 factor instead of unary minus in g_q", file=PB,
          old="        g_q[:3, :nq1] = -self.r_OJ1_q1(t, q)\n        g_q[:3, nq1:] = self.r_OJ2_q2(t, q)", new="        g_q[:3, :nq1] = -1.0 * self.r_OJ1_q1(t, q)\n        g_q[:3, nq1:] = 1.0 * self.r_OJ2_q2(t, q)"),
     dict(id="c05-n1", canary=True, what="einsum indices renamed consistently in A_IJ2_q2", file=PB,
